@@ -268,7 +268,7 @@ def _compute_active_scope(
         active = _active_from_entrypoints(entrypoints, nodes, nx_graph, alternates)
         if alternates:
             scoped = nx_graph.subgraph(active).copy()
-            _link_alternate_producers(scoped, active, alternates, nx_graph)
+            _link_alternate_producers(scoped, active, alternates, nodes, nx_graph)
     if selected is not None:
         active = _active_from_selection(selected, active, nodes, scoped)
 
@@ -304,15 +304,42 @@ def _exclusive_alternates(
     for name, names in contested.items():
         holder = names[0]
         alternates = [other for other in names[1:] if _is_pair_mutex(holder, other, groups)]
+        # With explicit edges= every producer carries the edges declared for it:
+        # an alternate that feeds the name to readers of its own is not missing any.
+        if any(name in data.get("value_names", ()) for other in alternates for _, _, data in nx_graph.out_edges(other, data=True)):
+            continue
         if alternates:
             result[name] = (holder, alternates)
     return result
+
+
+def _readers_via(holder: str, name: str, nodes: dict[str, HyperNode], nx_graph: nx.DiGraph) -> dict[str, str]:
+    """Readers of ``name`` that are wired to its edge-holding producer.
+
+    Returns ``{reader: "data" | "ordering"}``. A reader that takes several
+    values from the holder has one merged edge, which need not name ``name``
+    (a node waiting for it while reading another value): readers are found by
+    what they read, not by the edge's label.
+    """
+    readers: dict[str, str] = {}
+    if holder not in nx_graph:
+        return readers
+    for reader in nx_graph.successors(holder):
+        node = nodes.get(reader)
+        if node is None or reader == holder:
+            continue
+        if name in node.inputs:
+            readers[reader] = "data"
+        elif name in node.wait_for:
+            readers[reader] = "ordering"
+    return readers
 
 
 def _link_alternate_producers(
     scoped: nx.DiGraph,
     active: set[str],
     alternates: dict[str, tuple[str, list[str]]],
+    nodes: dict[str, HyperNode],
     nx_graph: nx.DiGraph,
 ) -> None:
     """Repeat an excluded holder's edges from its active alternate producers.
@@ -325,19 +352,20 @@ def _link_alternate_producers(
     for name, (holder, others) in alternates.items():
         if holder in active:
             continue  # its edges are in the scope: nothing is missing
-        for _, reader, data in nx_graph.out_edges(holder, data=True):
-            edge_type = data.get("edge_type")
-            if reader not in active or edge_type not in ("data", "ordering") or name not in data.get("value_names", ()):
+        for reader, edge_type in _readers_via(holder, name, nodes, nx_graph).items():
+            if reader not in active:
                 continue
             for other in others:
                 if other not in active or other == reader:
                     continue
                 if scoped.has_edge(other, reader):
                     existing = scoped.edges[other, reader]
-                    if existing.get("edge_type") == "data" or edge_type == "ordering":
-                        if existing.get("edge_type") == edge_type and name not in existing.get("value_names", []):
+                    if existing.get("edge_type") == edge_type:
+                        if name not in existing.get("value_names", []):
                             existing["value_names"] = [*existing.get("value_names", []), name]
                         continue
+                    if existing.get("edge_type") == "data" or edge_type == "ordering":
+                        continue  # a data edge is already there; it also orders the pair
                     # a data edge takes the place of an ordering/control edge, as in the full graph
                 scoped.add_edge(other, reader, edge_type=edge_type, value_names=[name])
 
@@ -362,11 +390,7 @@ def _active_from_entrypoints(
         alternates = _exclusive_alternates(nodes, nx_graph)
     via_holder: dict[str, set[str]] = {}
     for name, (holder, others) in alternates.items():
-        readers = {
-            reader
-            for _, reader, data in nx_graph.out_edges(holder, data=True)
-            if data.get("edge_type") in ("data", "ordering") and name in data.get("value_names", ())
-        }
+        readers = set(_readers_via(holder, name, nodes, nx_graph))
         for other in others:
             via_holder.setdefault(other, set()).update(readers - {other})
 
